@@ -401,7 +401,20 @@ func RunC16(r *core.Run) {
 
 // ---- C20 ----
 
+// ip4Slack: what lies between len and cap of the text handed to the search. Each variant would
+// complete or extend an address if the function looked past the end of the text.
+var ip4Slack = []string{"9.9.9.9.9", ".1.1.1.1", "1.1.1", "55.2.3.4", ""}
+
 func checkIP4(w *core.Worker, s []byte) {
+	// the text is handed over as a private copy whose slack (len..cap) holds digits and dots;
+	// the last variant has no slack at all (capacity == length)
+	{
+		sl := ip4Slack[(len(s)+int(core.HashBytes(s)&7))%len(ip4Slack)]
+		b := make([]byte, len(s)+len(sl))
+		copy(b, s)
+		copy(b[len(s):], sl)
+		s = b[:len(s)]
+	}
 	var dst [4]byte
 	for i := range dst {
 		dst[i] = 0xAA
